@@ -895,6 +895,11 @@ ComponentPtr flattenComponent(const ComponentEntityPtr &parent, ComponentPtr &co
             for (size_t j = 0; j < placeholderVariable->equivalentVariableCount(); ++j) {
                 auto localModelVariable = placeholderVariable->equivalentVariable(j);
                 auto importedComponentVariable = importedComponentCopy->variable(placeholderVariable->name());
+                if ((importedComponentVariable == nullptr) && importedComponentCopy->isImport()) {
+                    // The imported component is itself an import: the placeholder variable stays until that import is instantiated.
+                    importedComponentVariable = Variable::create(placeholderVariable->name());
+                    importedComponentCopy->addVariable(importedComponentVariable);
+                }
                 Variable::addEquivalence(importedComponentVariable, localModelVariable);
             }
         }
